@@ -21,11 +21,11 @@ DELIVERABLES (all under /verif):
   harness/src/bin/{pid.lower()}.rs  drives the REAL implementation (public API of the `turdb` crate) on generated cases; modes gen (with --lines replay support) and search
   tools/props.d/{pid}.json  registry entry (copy the shape of C27.json; honest claim text, trusted base, assumptions, rule)
   optionally tools/rs2v.d/<Module>.json if some function fits the translator subset (preferred where it fits)
-  entries in known_findings.json ONLY for genuine, confirmed defects of /repo (see guide); proposed repairs as unified diffs in /verif/fixes/{pid}-<slug>.diff (do NOT apply them to /repo)
+  entries in known_findings.d/{pid}.json ONLY for genuine, confirmed defects of /repo (see guide); proposed repairs as unified diffs in /verif/fixes/{pid}-<slug>.diff (do NOT apply them to /repo)
 Then `cd /verif && ./check {pid}` must exit 0 on the unchanged tree with zero correspondence disagreements, and `./check {pid} --tier thorough` too.
 
 WORK PLAN: get a thin end-to-end slice passing `./check {pid}` early (small model, one real theorem, a few hundred cases), then deepen: more of the mechanism in the model, the property's full statement as theorems (unbounded: for all inputs / op sequences), better generators (boundary + structured + malformed streams, honest `nontrivial` rule), the `search` oracle. Self-test sensitivity WITHOUT touching /repo: temporarily perturb your MODEL or Corr (e.g. flip a comparison) and confirm ./check reports a violation, then restore.
-If the faithful model refutes the property (the code really is wrong), follow "Known findings" in the guide: confirm on the real code through your harness, define a narrow `known_class`, prove `forall c, known_class c = 0 -> ...` plus a `..._refuted` witness, add the known_findings.json entry, and write the proposed minimal repair as a diff file. Never weaken spec_ok to make a defect disappear, and never report something as a finding unless the real implementation exhibits it.
+If the faithful model refutes the property (the code really is wrong), follow "Known findings" in the guide: confirm on the real code through your harness, define a narrow `known_class`, prove `forall c, known_class c = 0 -> ...` plus a `..._refuted` witness, add the known_findings.d/{pid}.json entry, and write the proposed minimal repair as a diff file. Never weaken spec_ok to make a defect disappear, and never report something as a finding unless the real implementation exhibits it.
 
 {extra}
 
